@@ -332,10 +332,12 @@ flight, any order, any number) inserted before every round (`C01_converges_noisy
 `Ob.keep`, `Ch1.keep`, `DP.keep`, `LinkedJ.keep`, `SysOK.deliver` hold for every delivery / duplication).  (4) convergence on EVERY index-based schedule that is loss-free and fair with bounded latency (`SufOK`, `FairL`:
 deliveries, duplications and clock advances in any order and number; every datagram in flight is delivered before the
 clock has moved by more than `L`, `2 L < 4 s`), from every reachable state satisfying the decidable start condition
-`ReadyF` (it contains `ReadyD` + `KnownSrc`, and admits a controlling agent that is already selected), within an
-explicit time (`C01_converges_fair_partial`).  MISSING for the full statement: clock advances that jump over a tick
-of the CONTROLLING agent (several of its ticks in one advance), peer-reflexive discovery at the controlling agent
-inside the suffix (`KnownSrc`), retransmission after the latency bound is missed, and the start states excluded by
+`ReadyF` (it contains `ReadyD`, and admits a controlling agent that is already selected), within an
+explicit time (`C01_converges_fair_partial`); peer-reflexive discovery at the controlling agent inside the suffix is
+covered (the forced tick it triggers is treated as a tick), and so are clock advances over several ticks of the
+controlling agent (jump bound `J`, `J + 2 L < 4 s`).  MISSING for the full statement: convergence through a pair that does not
+exist at the start of the suffix (created by a peer-reflexive discovery inside it), retransmission after the latency
+bound is missed, and the start states excluded by
 `ReadyF` (see notes/C01-live.md). -/
 
 open IceProofs.C01Live IceProofs.Agent in
@@ -516,34 +518,35 @@ theorem C01_converges_noisy_rounds_partial (s0 : Sys) (pre : List SysEv) (hi : S
 open IceProofs.C01Live in
 /-- **C01 convergence on every fair, loss-free suffix (partial).**  Let `s` be the state reached from an initial state
 by ANY prefix `pre` (local candidate addresses survive the NAT round trip) and let `s` satisfy the decidable start
-condition `ReadyF` for the controlling agent `c`, times `T0 ≤ now ≤ H` and a latency bound `L` with `2 L` below the
-transaction timeout (4 s); the controlling agent has a Succeeded pair, a selected pair, or a pair under its request
+condition `ReadyF` for the controlling agent `c`, times `T0 ≤ now ≤ H`, a latency bound `L` and a jump bound `J` with
+`J + 2 L` below the transaction timeout (4 s); the controlling agent has a Succeeded pair, a selected pair, or a pair under its request
 budget on a `Link`.  Let `suf` be ANY list of deliveries, duplications (of any datagram in flight, in any order) and
-clock advances that are monotone, stay within the horizon `H` and do not jump over the next tick of the controlling
-agent (`SufOK`: no loss, no API call; the controlled agent may run any number of ticks per advance; extra advances
-between ticks are allowed), and FAIR: whatever is in flight at some point of `suf` is delivered before the clock has
+clock advances that are monotone, stay within the horizon `H` and go at most `J` beyond the next tick of the controlling
+agent (`SufOK`: no loss, no API call; `J = 0`: its timer fires exactly when due, `J > 0`: an advance may run several of
+its ticks, `J + 2 L` below the transaction timeout and the catch-up ticks within the fuel of the model's timer loop; the
+controlled agent may run any number of ticks per advance; extra advances between ticks are allowed), and FAIR: whatever is in flight at some point of `suf` is delivered before the clock has
 moved by more than `L` (`FairL`; decidable form `FairLD`).  If the clock at the end of `suf` is beyond
-`fairBound = max (now + 2 s + 2 L) nomTime + 2 s + 4 L`, BOTH agents have a selected pair and are Connected at the
+`fairBound = max (now + 2 s + J + 2 L) nomTime + 2 s + 2 J + 4 L`, BOTH agents have a selected pair and are Connected at the
 end of `suf` (hence at the end of every longer such suffix). -/
 theorem C01_converges_fair_partial (s0 : Sys) (pre : List SysEv) (hi : Sys.Init s0) (hf : FreshSel s0)
-    (hs : LocalsSane s0.nat pre) (c : Bool) (T0 H L : Nat) (hr : ReadyF pre c T0 H L (Sys.runs s0 pre))
+    (hs : LocalsSane s0.nat pre) (c : Bool) (T0 H L J : Nat) (hr : ReadyF pre c T0 H L (Sys.runs s0 pre))
     (hstart : HasSucc (Sys.runs s0 pre) c ∨ Sel (Sys.runs s0 pre) c ∨ BudgetPairD c (Sys.runs s0 pre))
-    (hL : 2 * L < 4000000000)
-    (suf : List SysEv) (hsuf : SufOK c H (Sys.runs s0 pre) suf) (hfair : FairL L (Sys.runs s0 pre) suf)
-    (hend : fairBound c L (Sys.runs s0 pre) < (Sys.runs s0 (pre ++ suf)).now) :
+    (hL : J + 2 * L < 4000000000) (hfuel : J < 99998 * Config.minInterval ((Sys.runs s0 pre).agent c).cfg)
+    (suf : List SysEv) (hsuf : SufOK c H J (Sys.runs s0 pre) suf) (hfair : FairL L (Sys.runs s0 pre) suf)
+    (hend : fairBound c L J (Sys.runs s0 pre) < (Sys.runs s0 (pre ++ suf)).now) :
     ∀ x, ((Sys.runs s0 (pre ++ suf)).agent x).selected.isSome = true ∧
          ((Sys.runs s0 (pre ++ suf)).agent x).connState = .connected := by
-  obtain ⟨hfi, hlink⟩ := ready_finv hi hf hs hr
+  have hL' : J + 2 * L < maxBindingRequestTimeout := by unfold maxBindingRequestTimeout; exact hL
+  obtain ⟨hfi, hlink⟩ := ready_finv (J := J) hi hf hs hr hfuel (by omega)
   rw [Sys.runs_append] at hend ⊢
-  exact converge_fair hfi hsuf hfair (by unfold maxBindingRequestTimeout; exact hL) hlink
-    (hstart.imp id (Or.imp id BudgetPairD.budget)) hend
+  exact converge_fair hfi hsuf hfair hL' hlink (hstart.imp id (Or.imp id BudgetPairD.budget)) hend
 
 open IceProofs.C01Live in
 /-- **… and the selected pairs are mirror images** when each agent has one local address (`C01_mirror_partial`; a
 loss-free suffix contains no API call, so it adds no local address). -/
 theorem C01_converges_fair_mirror_partial (s0 : Sys) (pre : List SysEv) (hi : Sys.Init s0)
     (hs : LocalsSane s0.nat pre) (c : Bool) (T0 H L : Nat) (hr : ReadyF pre c T0 H L (Sys.runs s0 pre))
-    (suf : List SysEv) (hsuf : SufOK c H (Sys.runs s0 pre) suf)
+    (J : Nat) (suf : List SysEv) (hsuf : SufOK c H J (Sys.runs s0 pre) suf)
     (a b : Nat) (h1 : SingleAddr pre a b) (hh : NoHairpin s0.nat s0.blocked pre) :
     ∀ pa pb la ra lb rb,
       selectedPair (Sys.runs s0 (pre ++ suf)).a = some pa → selectedPair (Sys.runs s0 (pre ++ suf)).b = some pb →
@@ -661,8 +664,8 @@ open LiveExample IceProofs.C01Live in
 /-- the hypotheses of `C01_converges_fair_partial` hold on the state of the first example for the non-canonical fair
 suffix `suf` (latency bound 100 ms, horizon 5 s, `fairBound` = 4.6 s) … -/
 example : ReadyF pre false 0 5000000000 100000000 (Sys.runs s0 pre) ∧ BudgetPairD false (Sys.runs s0 pre)
-    ∧ SufOK false 5000000000 (Sys.runs s0 pre) suf ∧ FairLD 100000000 (Sys.runs s0 pre) suf
-    ∧ fairBound false 100000000 (Sys.runs s0 pre) < (Sys.runs s0 (pre ++ suf)).now := by
+    ∧ SufOK false 5000000000 0 (Sys.runs s0 pre) suf ∧ FairLD 100000000 (Sys.runs s0 pre) suf
+    ∧ fairBound false 100000000 0 (Sys.runs s0 pre) < (Sys.runs s0 (pre ++ suf)).now := by
   decide
 
 set_option maxRecDepth 100000 in
@@ -671,8 +674,79 @@ open LiveExample IceProofs.C01Live in
 `ReadyD`): `ReadyF` holds through `DPYD`. -/
 example : LocalsSane s0.nat pre3 ∧ ReadyF pre3 false 0 5000000000 100000000 (Sys.runs s0 pre3)
     ∧ (Sys.runs s0 pre3).a.selected = some 2 ∧ (Sys.runs s0 pre3).b.selected = none ∧ HasSucc (Sys.runs s0 pre3) false
-    ∧ SufOK false 5000000000 (Sys.runs s0 pre3) suf3 ∧ FairLD 100000000 (Sys.runs s0 pre3) suf3
-    ∧ fairBound false 100000000 (Sys.runs s0 pre3) < (Sys.runs s0 (pre3 ++ suf3)).now := by
+    ∧ SufOK false 5000000000 0 (Sys.runs s0 pre3) suf3 ∧ FairLD 100000000 (Sys.runs s0 pre3) suf3
+    ∧ fairBound false 100000000 0 (Sys.runs s0 pre3) < (Sys.runs s0 (pre3 ++ suf3)).now := by
+  decide
+
+/-! ### The excluded points of `C01_converges_fair_partial`, on the model -/
+
+namespace LiveExample
+/-- `e10_prflx`: A (controlling) is not told B's second address 33, and 16 ↔ 32 is blocked both ways -/
+def s10 : Sys := { s0 with blocked := [(32, 16), (16, 32)] }
+def pre10 : List SysEv :=
+  [.api false (.addLocal 0 cA1), .api true (.addLocal 0 cB1), .api true (.addLocal 0 cB2),
+   .api false (.addRemote 0 cB1), .api true (.addRemote 0 cA1),
+   .api false (.start 0 true "ub" "pb"), .api true (.start 0 false "ua" "pa")]
+/-- A (16) knows 32 only; B has 32 and 33; everything reachable except A's own address -/
+def s11 : Sys := { s0 with blocked := [(16, 16)] }
+def pre11 : List SysEv := pre10
+def suf11 : List SysEv :=
+  [.deliver 2, .deliver 4, .deliver 5, .deliver 5, .deliver 4, .deliver 3, .deliver 4, .deliver 4, .deliver 3, .deliver 2,
+   .deliver 1, .deliver 2, .deliver 2, .deliver 1, .deliver 0, .deliver 0, .advance 200000000,
+   .deliver 0, .deliver 0, .deliver 0, .deliver 0, .advance 2200000000, .deliver 0, .deliver 0, .deliver 0, .deliver 0,
+   .advance 4200000000, .deliver 0, .deliver 0, .deliver 0, .deliver 0, .advance 4700000000]
+/-- clock advances that go 200 ms beyond the next tick of the controlling agent (two of its ticks per advance) -/
+def sufJ : List SysEv :=
+  List.replicate 20 (.deliver 0) ++ [.advance 400000000] ++ List.replicate 6 (.deliver 0) ++ [.advance 800000000] ++
+  List.replicate 4 (.deliver 0) ++ [.advance 2800000000] ++ List.replicate 4 (.deliver 0) ++ [.advance 4800000000] ++
+  List.replicate 4 (.deliver 0) ++ [.advance 4950000000]
+/-- `e12_bigadv`: clock advances of 1 s (five ticks of the controlling agent each), then everything in flight -/
+def big : List SysEv :=
+  (List.range 2).flatMap fun i => SysEv.advance ((i + 1) * 1000000000) :: List.replicate 100 (SysEv.deliver 0)
+end LiveExample
+
+set_option maxRecDepth 100000 in
+open LiveExample IceProofs.C01Live in
+/-- the only pair of the controlling agent at the start (16 → 32) is not on a `Link`; the pair it converges on (16 → 33)
+is created by a peer-reflexive discovery inside the suffix (`hstart` of `C01_converges_fair_partial` fails): the MODEL
+converges, after five canonical rounds (the acceptance wait of a prflx candidate is 1 s). -/
+example : ¬ BudgetPairD false (Sys.runs s10 pre10) ∧ ¬ HasSucc (Sys.runs s10 pre10) false
+    ∧ (rounds false 5 (Sys.runs s10 pre10)).a.selected = some 2 ∧ (rounds false 5 (Sys.runs s10 pre10)).b.selected = some 2
+    ∧ (rounds false 5 (Sys.runs s10 pre10)).a.connState = .connected ∧ (rounds false 5 (Sys.runs s10 pre10)).b.connState = .connected
+    ∧ (((rounds false 5 (Sys.runs s10 pre10)).a.remotes.map fun r => (r.addr, r.ty))) = [(32, 1), (33, 3)] := by
+  decide
+
+set_option maxRecDepth 100000 in
+open LiveExample IceProofs.C01Live in
+/-- peer-reflexive discovery at the controlling agent INSIDE the suffix is covered: A is not told B's second address 33
+(`KnownSrc` fails), the first delivery of `suf11` makes it discover 33 and run a forced tick; all hypotheses of
+`C01_converges_fair_partial` hold. -/
+example : LocalsSane s11.nat pre11 ∧ ¬ KnownSrc false (Sys.runs s11 pre11)
+    ∧ ReadyF pre11 false 0 5000000000 100000000 (Sys.runs s11 pre11) ∧ BudgetPairD false (Sys.runs s11 pre11)
+    ∧ SufOK false 5000000000 0 (Sys.runs s11 pre11) suf11 ∧ FairLD 100000000 (Sys.runs s11 pre11) suf11
+    ∧ fairBound false 100000000 0 (Sys.runs s11 pre11) < (Sys.runs s11 (pre11 ++ suf11)).now
+    ∧ ((Sys.runs s11 pre11).a.remotes.length, (Sys.runs s11 (pre11 ++ suf11.take 1)).a.remotes.length) = (1, 2) := by
+  decide
+
+set_option maxRecDepth 100000 in
+open LiveExample IceProofs.C01Live in
+/-- clock advances over several ticks of the controlling agent are covered up to the jump bound `J`: `sufJ` is not a
+`J = 0` suffix, all hypotheses of `C01_converges_fair_partial` hold with `J` = 200 ms, `L` = 50 ms (`fairBound` = 4.9 s). -/
+example : ¬ SufOK false 5000000000 0 (Sys.runs s0 pre) sufJ
+    ∧ ReadyF pre false 0 5000000000 50000000 (Sys.runs s0 pre) ∧ BudgetPairD false (Sys.runs s0 pre)
+    ∧ 200000000 + 2 * 50000000 < 4000000000
+    ∧ 200000000 < 99998 * Config.minInterval ((Sys.runs s0 pre).agent false).cfg
+    ∧ SufOK false 5000000000 200000000 (Sys.runs s0 pre) sufJ ∧ FairLD 50000000 (Sys.runs s0 pre) sufJ
+    ∧ fairBound false 50000000 200000000 (Sys.runs s0 pre) < (Sys.runs s0 (pre ++ sufJ)).now := by
+  decide
+
+set_option maxRecDepth 100000 in
+open LiveExample IceProofs.C01Live in
+/-- clock advances of 1 s (`J` ≥ 800 ms; then `fairBound` exceeds the horizon the default timeouts allow, 5 s — not covered):
+the MODEL converges. -/
+example : ¬ SufOK false 6000000000 0 (Sys.runs s0 pre) big
+    ∧ (Sys.runs s0 (pre ++ big)).a.selected = some 2 ∧ (Sys.runs s0 (pre ++ big)).b.selected = some 3
+    ∧ (Sys.runs s0 (pre ++ big)).a.connState = .connected ∧ (Sys.runs s0 (pre ++ big)).b.connState = .connected := by
   decide
 
 end IceProps.C01
